@@ -57,6 +57,7 @@ fn main() {
                     "C14" => checks::ext::run(&tier),
                     "C05" => checks::logic::run(&tier),
                     "C10" => checks::funcs::run(&tier),
+                    "C09" => checks::refs::run(&tier),
                     "C06" | "C07" | "C08" => checks::lang::run(&prop, &tier),
                     _ => {
                         eprintln!("no check for {}", prop);
